@@ -34,6 +34,10 @@ def report(ctx, mon, totals, belongs, rule, expect_clauses=(), exhaustive=True, 
     if (not mine or sum(mine.values()) == 0) and not ctx.violations:
         raise core.CheckerBroken("zero clause evaluations for %s" % ctx.prop)
     any_failure = any(belongs(f.obligation) for f in mon.failures) or bool(ctx.violations)
+    stale = sorted(k[6:] for k, v in mon.calls.items() if k.startswith("stale:") and v)
+    if stale:
+        ctx.notes.append("proof_stale: the contracts of %r do not bind (private helper absent or with another signature); the contracts of the public callers decide" % (stale,))
+        expect_clauses = [pat for pat in expect_clauses if not any(pat.split("/")[0].split(".")[-1] in t.split(".")[-1] or t.split(".")[-1] in pat.split("/")[0] for t in stale)]
     for pat in expect_clauses:
         if not any(pat in ob and n > 0 for ob, n in mine.items()) and not any_failure:
             # (when an earlier clause fails on every input - e.g. the function always raises - later
